@@ -194,6 +194,11 @@ impl Updater {
         segment_1idx: u32,
         bytes: &[u8],
     ) -> Result<SegmentOutcome, ManagerError<T::Error>> {
+        if segment_1idx == 0 {
+            // segments are 1-indexed
+            return Err(SpiFlashError::OutOfBounds.into());
+        }
+
         let flash = RefCell::new(flash);
         let parity = UpdaterMatrix {
             num_blocks: self.reconstruction_state.n,
@@ -400,6 +405,10 @@ impl<const N: usize> SlotManager<N> {
             return Ok(None);
         }
         if newest.1.segment_size != second_newest.1.segment_size {
+            return Ok(None);
+        }
+        if newest.1.num_segments.0 as usize > BitArray::<[u8; 256]>::ZERO.len() {
+            // More parity rows than a session can track, not written by start_update.
             return Ok(None);
         }
         if self
